@@ -232,7 +232,8 @@ class World:
                     else:
                         item = sub
                 self.types.setdefault(("item",) + cpath, item)
-                schema._add_field(key, cc.ListField(item, required=bool(child.get("req"))))
+                kw = {"sensitive": child["sensitive"]} if child.get("sensitive") is not None else {}
+                schema._add_field(key, cc.ListField(item, required=bool(child.get("req")), **kw))
             elif kind == "virtual":
                 of = child["of"]
                 setter = None
